@@ -137,10 +137,377 @@ def run_case(case):
     return res
 
 
+# ------------------------------------------------------------------ index faults (index-range safety)
+
+INT_DTYPES = (torch.int64, torch.int32, torch.int16, torch.int8, torch.uint8)
+LABEL_FAULTS = ["-1", "-C", "C", "C+1", "2^31", "-2^63"]
+SCORE_FAULTS = ["nan", "+inf", "-inf"]
+K_FAULTS = ["0", "-1", "n+1", "2^31"]
+_PLAN = None
+
+
+def label_value(name: str, C: int) -> int:
+    return {"-1": -1, "-C": -C, "C": C, "C+1": C + 1, "2^31": 2 ** 31, "-2^63": -2 ** 63}[name]
+
+
+def label_class(name: str) -> str:
+    """fault class used in violation signatures."""
+    return {"-1": "label-in-[-C,-1]", "-C": "label-in-[-C,-1]", "-2^63": "label<-C", "C": "label>=C", "C+1": "label>=C", "2^31": "label>=C"}[name]
+
+
+def functional_name(spec) -> str:
+    """name of the public functional behind `spec.functional` (a closure made by registry._f / a lambda)."""
+    f = spec.functional
+    seen, todo = set(), [f]
+    while todo:
+        g = todo.pop()
+        if id(g) in seen or g is None:
+            continue
+        seen.add(id(g))
+        mod = getattr(g, "__module__", "") or ""
+        if mod.startswith("torcheval.metrics.functional") and not getattr(g, "__name__", "_").startswith("_"):
+            return g.__name__
+        for c in (getattr(g, "__closure__", None) or ()):
+            try:
+                v = c.cell_contents
+            except ValueError:
+                continue
+            if callable(v):
+                todo.append(v)
+        code = getattr(g, "__code__", None)
+        if code is not None:
+            for n in code.co_names:
+                import torcheval.metrics.functional as F
+                if hasattr(F, n) and callable(getattr(F, n)) and not n.startswith("_") and n not in ("F",):
+                    return n
+    return f"functional({spec.name})"
+
+
+def label_bound(spec, cfg, b: Batch, pos: int) -> int:
+    """number of valid label values of the integer argument at `pos`."""
+    if spec.name.startswith("Retrieval") and pos == 2:
+        return cfg.get("num_queries", 1)
+    if spec.name.startswith(("Binary", "Multilabel", "TopKMultilabel", "WindowedBinary")):
+        return 2
+    if cfg.get("num_classes"):
+        return cfg["num_classes"]
+    a0 = b.args[0]
+    if isinstance(a0, torch.Tensor) and a0.is_floating_point() and a0.ndim >= 2:
+        return a0.shape[-1]
+    return 3
+
+
+def index_plan():
+    """(spec index, fault family, argument position, site kinds) from the regenerated inventory + registry:
+    label  integer arguments of update() that reach an index kernel un-constructed (inventory), integer
+           class-label arguments of the Multiclass* metrics (one-vs-rest comparisons included), and the
+           `indexes` argument of the retrieval classes;
+    score  float arguments that are bucketed by `searchsorted` on their way to `histc` / an index;
+    k      the `k` of every metric that has one."""
+    global _PLAN
+    if _PLAN is not None:
+        return _PLAN
+    import inspect
+    from ..translators import indexsites
+    roots = indexsites.entry_roots(indexsites.facts())
+    plan = []
+    for si, spec in enumerate(SPECS):
+        cfg = fresh_cfg(spec.configs[0])
+        m = new_metric(spec, cfg)
+        params = [p for p in inspect.signature(type(m).update).parameters if p != "self"]
+        ent = {}
+        for e in (f"{spec.name}.update", f"{spec.name}.compute"):
+            for fam, d in roots.get(e, {}).items():
+                for r, kinds in d.items():
+                    ent.setdefault(fam, {}).setdefault(r, set()).update(kinds)
+        # argument variants over configurations / generator variants (labels vs logits, indexes present or not)
+        variants: dict = {}
+        for ci in range(len(spec.configs)):
+            for r in range(6):
+                bb = spec.gen(Rng(1000 * ci + r), fresh_cfg(spec.configs[ci]), 3)
+                for pos, a in enumerate(bb.args):
+                    if isinstance(a, torch.Tensor):
+                        variants.setdefault((pos, "int" if a.dtype in INT_DTYPES else ("float" if a.is_floating_point() else "other")), a)
+        for (pos, ty), a in sorted(variants.items(), key=lambda kv: kv[0]):
+            pname = params[pos] if pos < len(params) else f"arg{pos}"
+            if ty == "int":
+                kinds = set(ent.get("label", {}).get(pname, set()))
+                if not kinds and pname == "target" and (spec.name.startswith("Multiclass") or "num_classes" in spec.configs[0]):
+                    kinds = {"compare(one-vs-rest)"}
+                if not kinds and spec.name.startswith("Retrieval") and pname == "indexes":
+                    kinds = {"mask(indexes==i)"}
+                if kinds:
+                    plan.append((si, "label", pos, sorted(kinds)))
+            elif ty == "float":
+                kinds = set(ent.get("score", {}).get(pname, set()))
+                if not kinds and ent.get("score") and pos <= 1 and spec.name == "Wasserstein1D":
+                    kinds = {"index_get(searchsorted)"}
+                if kinds:
+                    plan.append((si, "score", pos, sorted(kinds)))
+        if any("k" in c for c in spec.configs) or "k" in inspect.signature(type(m).__init__).parameters:
+            plan.append((si, "k", -1, sorted(set().union(*ent.get("k", {}).values())) or ["rank<k"]))
+    _PLAN = plan
+    return plan
+
+
+def index_case_list(seed: int, tier: str):
+    rng = Rng(seed * 1000003 + 1414)
+    out = []
+    reps = 1 if tier == "quick" else 3
+    for si, fam, pos, kinds in index_plan():
+        spec = SPECS[si]
+        faults = {"label": LABEL_FAULTS, "score": SCORE_FAULTS, "k": K_FAULTS}[fam]
+        cis = range(len(spec.configs))
+        for ci in cis:
+            if fam == "k" and "k" not in spec.configs[ci] and ci > 0:
+                continue
+            for f in faults:
+                for r in range(reps):
+                    out.append(("icls", si, ci, f"{fam}:{f}@{pos}", rng.randrange(10 ** 9)))
+                if spec.functional is not None:
+                    out.append(("ifn", si, ci, f"{fam}:{f}@{pos}", rng.randrange(10 ** 9)))
+    return out
+
+
+def gen_with(spec, cfg, rng, n, pos, want_int):
+    """a valid batch whose argument `pos` exists and has the wanted kind (the generators choose
+    between label and logit inputs per stream); None when this configuration never produces it."""
+    for _ in range(12):
+        c = fresh_cfg(cfg)
+        c.pop("_v", None)
+        b = spec.gen(rng, c, n)
+        if pos < len(b.args) and isinstance(b.args[pos], torch.Tensor) and ((b.args[pos].dtype in INT_DTYPES) == want_int):
+            cfg.update({k: v for k, v in c.items() if k.startswith("_")})
+            return b
+    return None
+
+
+def with_value(b: Batch, pos: int, value, where: int = 0) -> Batch:
+    args = list(b.args)
+    t = args[pos].clone()
+    flat = t.reshape(-1)
+    flat[where % max(1, flat.numel())] = value
+    args[pos] = t
+    return Batch(tuple(args), dict(b.kwargs))
+
+
+def same_flat(a, b, tol=1e-6):
+    """two `call_real` / `observe` outcomes describe the same result."""
+    if a[0] != b[0]:
+        return False
+    if a[0] != "ok":
+        return True
+    return same_obs(("ok", a[1]), ("ok", b[1]), tol)
+
+
+def k_limit(spec, cfg, b: Batch) -> int:
+    a0 = b.args[0]
+    return a0.shape[-1] if isinstance(a0, torch.Tensor) and a0.ndim >= 1 else 1
+
+
+def run_index_case(case):
+    kind, si, ci, fault, cseed = case
+    spec = SPECS[si]
+    fam, rest = fault.split(":", 1)
+    fname, pos = rest.rsplit("@", 1)
+    pos = int(pos)
+    rng = Rng(cseed)
+    cfg = fresh_cfg(spec.configs[ci])
+    entry = (spec.name + ".update") if kind == "icls" else functional_name(spec)
+    res = {"entry": entry, "family": fam, "cfg": public_cfg(cfg),
+           "kinds": next((k for i, f, p, k in index_plan() if i == si and f == fam and p == pos), [])}
+    n = rng.choice([s for s in spec.sizes if s >= 2] or [2])
+    where = rng.randrange(n)
+
+    def descr(hist, fb, extra=None):
+        d = {"class": spec.name, "cfg": public_cfg(cfg), "history": [b.describe() for b in hist], "faulty_call": fb.describe() if fb is not None else None}
+        d.update(extra or {})
+        return d
+
+    # ---------------- k faults: the parameter itself is out of range
+    if fam == "k":
+        good = spec.gen(rng, cfg, n)
+        lim = k_limit(spec, cfg, good)
+        # precision@k divides by k itself (documented) unless limit_k_to_size: k > n is then a legal request
+        saturates = not (spec.name == "RetrievalPrecision" and not cfg.get("limit_k_to_size"))
+        kv = {"0": 0, "-1": -1, "n+1": lim + 1, "2^31": 2 ** 31}[fname]
+        bad_cfg = dict(cfg, k=kv)
+        ref_cfg = dict(cfg, k=lim)
+        res["value"] = kv
+        if kind == "ifn":
+            r = call_real(lambda: spec.functional(bad_cfg, good))
+            if r[0] == "err":
+                return {"skip": True} if r[1] == "NotImplementedError" else dict(res, raised=r[1])
+            res["returned"] = True
+            if kv > lim and not saturates:
+                res["oracle"] = "k>n-legal(denominator-k)"
+            elif kv > lim:
+                ref = call_real(lambda: spec.functional(ref_cfg, good))
+                res["oracle"] = "equals-k=n" if same_flat(r, ref) else "differs-from-k=n"
+            else:
+                res["oracle"] = "all-zero" if all(bool((t == 0).all()) for t in r[1]) else "nonzero-for-k<=0"
+            if res["oracle"] in ("differs-from-k=n", "nonzero-for-k<=0"):
+                res["detail"] = descr([], good, {"k": kv, "result": [t.tolist() for t in r[1]]})
+            return res
+        try:
+            m = new_metric(spec, bad_cfg)
+        except Exception as e:  # noqa: BLE001
+            return dict(res, raised=type(e).__name__, at="constructor")
+        before, pbefore = snapshot(m), plain_attrs(m)
+        err = try_update(m, good)
+        if err is not None:
+            res["raised"] = err[0]
+            if not snap_equal(before, snapshot(m)) or pbefore != plain_attrs(m):
+                res["state_changed"] = True
+                res["detail"] = descr([], good, {"k": kv, "error": err})
+            return res
+        o = observe(m)
+        if o[0] == "err":
+            return dict(res, raised=o[1], at="compute")
+        res["returned"] = True
+        if kv > lim and not saturates:
+            res["oracle"] = "k>n-legal(denominator-k)"
+        elif kv > lim:
+            twin = new_metric(spec, ref_cfg); good.apply(twin)
+            res["oracle"] = "equals-k=n" if same_obs(o, observe(twin)) else "differs-from-k=n"
+        else:
+            res["oracle"] = "all-zero" if all(bool((t == 0).all()) for t in o[1]) else "nonzero-for-k<=0"
+        if res["oracle"] in ("differs-from-k=n", "nonzero-for-k<=0"):
+            res["detail"] = descr([], good, {"k": kv, "result": obs_json(o)})
+        return res
+
+    # ---------------- label / score faults: one element of one argument is out of range
+    if kind == "ifn":
+        good = gen_with(spec, cfg, rng, n, pos, fam == "label")
+        if good is None:
+            return {"skip": True}
+        if fam == "label":
+            C = label_bound(spec, cfg, good, pos)
+            v = label_value(fname, C)
+            fb = with_value(good, pos, v, where)
+            res.update(value=v, bound=C)
+            r = call_real(lambda: spec.functional(cfg, fb))
+            if r[0] == "err":
+                return {"skip": True} if r[1] == "NotImplementedError" else dict(res, raised=r[1])
+            res["returned"] = True
+            res["detail"] = descr([], fb, {"result": [t.tolist() for t in r[1]], "valid_labels": f"0..{C - 1}"})
+            return res
+        v = {"nan": float("nan"), "+inf": float("inf"), "-inf": float("-inf")}[fname]
+        fb = with_value(good, pos, v, where)
+        r = call_real(lambda: spec.functional(cfg, fb))
+        if r[0] == "err":
+            return dict(res, raised=r[1])
+        res["returned"] = True
+        if spec.family == "binned":
+            hi = call_real(lambda: spec.functional(cfg, with_value(good, pos, 2.0, where)))
+            lo = call_real(lambda: spec.functional(cfg, with_value(good, pos, -1.0, where)))
+            res["oracle"] = score_oracle(fname, same_flat(r, hi), same_flat(r, lo))
+            if res["oracle"].startswith("differs"):
+                res["detail"] = descr([], fb, {"result": [t.tolist() for t in r[1]], "as_above_all_thresholds": [t.tolist() for t in hi[1]] if hi[0] == "ok" else hi[1],
+                                               "as_below_all_thresholds": [t.tolist() for t in lo[1]] if lo[0] == "ok" else lo[1]})
+        return res
+
+    good = gen_with(spec, cfg, rng, n, pos, fam == "label")
+    if good is None:
+        return {"skip": True}
+    hist = gen_stream(spec, cfg, rng, rng.randint(0, 2))
+    m, twin = new_metric(spec, cfg), new_metric(spec, cfg)
+    for b in hist:
+        b.apply(m); b.apply(twin)
+    if fam == "label":
+        C = label_bound(spec, cfg, good, pos)
+        v = label_value(fname, C)
+        res.update(value=v, bound=C)
+    else:
+        v = {"nan": float("nan"), "+inf": float("inf"), "-inf": float("-inf")}[fname]
+    fb = with_value(good, pos, v, where)
+    before, pbefore = snapshot(m), plain_attrs(m)
+    err = try_update(m, fb)
+    if err is not None:
+        res["raised"] = err[0]
+        if not snap_equal(before, snapshot(m)) or pbefore != plain_attrs(m):
+            res["state_changed"] = True
+            res["detail"] = descr(hist, fb, {"error": err})
+            return res
+        cont = gen_stream(spec, cfg, rng, 2)
+        for b in cont:
+            e1, e2 = try_update(m, b), try_update(twin, b)
+            if (e1 is None) != (e2 is None):
+                res["continuation_differs"] = f"update after the failed call: {e1} vs twin {e2}"
+        o1, o2 = observe(m), observe(twin)
+        if not same_obs(o1, o2, 0.0):
+            res["continuation_differs"] = f"compute after the failed call {obs_json(o1)} vs twin {obs_json(o2)}"
+        if "continuation_differs" in res:
+            res["detail"] = descr(hist, fb, {"continuation": [b.describe() for b in cont], "error": err})
+        return res
+    # update() accepted the out-of-range element
+    o = observe(m)
+    res["returned"] = True
+    res["compute"] = "raises:" + o[1] if o[0] == "err" else "returns"
+    if fam == "label":
+        res["detail"] = descr(hist, fb, {"compute_after": obs_json(o), "valid_labels": f"0..{C - 1}"})
+        return res
+    if spec.family == "binned":
+        hi, lo = new_metric(spec, cfg), new_metric(spec, cfg)
+        for b in hist:
+            b.apply(hi); b.apply(lo)
+        with_value(good, pos, 2.0, where).apply(hi); with_value(good, pos, -1.0, where).apply(lo)
+        oh, ol = observe(hi), observe(lo)
+        res["oracle"] = score_oracle(fname, same_obs(o, oh, 1e-6), same_obs(o, ol, 1e-6))
+        if res["oracle"].startswith("differs"):
+            res["detail"] = descr(hist, fb, {"compute_after": obs_json(o), "as_above_all_thresholds": obs_json(oh), "as_below_all_thresholds": obs_json(ol)})
+    return res
+
+
+def score_oracle(fname: str, eq_hi: bool, eq_lo: bool) -> str:
+    """thresholds lie in [0, 1]: +inf counts like any score above them (2.0), -inf like any score below (-1.0);
+    NaN has no textbook value — it must at least be treated as one of the two."""
+    if fname == "+inf":
+        return "as-above-all-thresholds" if eq_hi else "differs-from-score-above-all-thresholds"
+    if fname == "-inf":
+        return "as-below-all-thresholds" if eq_lo else "differs-from-score-below-all-thresholds"
+    if eq_hi and eq_lo:
+        return "nan-irrelevant"
+    if eq_hi:
+        return "nan-as-above-all-thresholds"
+    if eq_lo:
+        return "nan-as-below-all-thresholds"
+    return "differs-nan-neither-above-nor-below"
+
+
+def all_cases(seed: int, tier: str):
+    return case_list(seed, tier) + index_case_list(seed, tier)
+
+
+def run_any(case):
+    return run_index_case(case) if case[0] in ("icls", "ifn") else run_case(case)
+
+
+def limit_memory():
+    """an index as large as 2^31 must not make a kernel allocate the machine away (bincount-like growth)."""
+    try:
+        import resource
+        resource.setrlimit(resource.RLIMIT_AS, (12 << 30, 12 << 30))
+    except Exception:  # noqa: BLE001
+        pass
+
+
 def main():
+    limit_memory()
+    if sys.argv[1] == "--one":
+        # replay of a single recorded case: `--one <json case>`
+        case = json.loads(sys.argv[2])
+        si = next(i for i, s in enumerate(SPECS) if s.name == case[1])
+        c = (case[0], si, case[2], case[3], case[4])
+        try:
+            r = run_any(c)
+        except Exception as e:  # noqa: BLE001
+            r = {"harness_error": repr(e)[:200]}
+        sys.stdout.write(json.dumps({"done": 0, **r}, default=str) + "\n"); sys.stdout.flush()
+        return
     seed, tier, start = int(sys.argv[1]), sys.argv[2], int(sys.argv[3])
     skip = set(int(x) for x in sys.argv[4].split(",") if x) if len(sys.argv) > 4 else set()
-    cases = case_list(seed, tier)
+    cases = all_cases(seed, tier)
     out = sys.stdout
     for i in range(start, len(cases)):
         if i in skip:
@@ -148,7 +515,7 @@ def main():
         c = cases[i]
         out.write(json.dumps({"start": i, "case": [c[0], SPECS[c[1]].name, c[2], c[3], c[4]]}) + "\n"); out.flush()
         try:
-            r = run_case(c)
+            r = run_any(c)
         except Exception as e:  # noqa: BLE001
             r = {"harness_error": repr(e)[:200]}
         out.write(json.dumps({"done": i, **r}, default=str) + "\n"); out.flush()
